@@ -488,6 +488,8 @@ def _call(node, sc):
         return boolv(z3.PrefixOf(args[1].v, args[0].v))
     if name == "endswith":
         return boolv(z3.SuffixOf(args[1].v, args[0].v))
+    if name == "truthy":
+        return boolv(ops.truth(heapops, sc.heap, args[0]))
     if name in ("int_str_ok", "num_str_ok", "int_of_str", "num_of_str"):
         from . import calls as _c
 
